@@ -89,6 +89,19 @@ void progress_set(const std::string& s) {
   if (g_progress == nullptr) return;
   std::snprintf(g_progress, kProgressSize, "%s", s.c_str());
 }
+// marks the announced history with " SCAN" while the scan enumeration runs on it, so that a crash there is attributed to
+// the scan property
+struct ProgressScanMark {
+  std::string saved;
+  ProgressScanMark() {
+    if (g_progress == nullptr) return;
+    saved = g_progress;
+    progress_set(saved + " SCAN");
+  }
+  ~ProgressScanMark() {
+    if (g_progress != nullptr) progress_set(saved);
+  }
+};
 
 Bytes from_hex(const std::string& h) {
   Bytes b;
@@ -153,8 +166,10 @@ std::string history_str(const std::vector<Action>& h) {
 }
 std::vector<Action> parse_history(std::string s) {
   std::vector<Action> h;
-  const auto fpos = s.find(" FAULT");
-  if (fpos != std::string::npos) s = s.substr(0, fpos);
+  for (const char* suffix : {" FAULT", " SCAN"}) {
+    const auto fpos = s.find(suffix);
+    if (fpos != std::string::npos) s = s.substr(0, fpos);
+  }
   if (s == "-" || s.empty()) return h;
   for (const auto& t : split(s, ',')) {
     Action a{};
@@ -549,6 +564,7 @@ struct Engine {
 
   void all_scans(Db& d, const RefMap& ref, const std::vector<Action>& h) {
     if (opt.scan_level == 0) return;
+    const ProgressScanMark mark;
     const int n = static_cast<int>(ref.size());
     std::vector<int> halts{-1};
     if (opt.scan_level >= 2) {
